@@ -152,6 +152,8 @@ pub proof fn lemma_align_up(a: u64, align: u64)
 //@ end
 
 //@ fn src/addr.rs | impl VirtAddr | new_unsafe
+//@ obligation C03 C03.VirtAddr_new_unsafe.helper_identity
+//@ obligation C05 C05.VirtAddr_new_unsafe.helper_identity
 //@ A
     requires canonical(addr),
     ensures r.0 == addr,
@@ -166,6 +168,9 @@ pub proof fn lemma_align_up(a: u64, align: u64)
 //@ end
 
 //@ fn src/addr.rs | impl VirtAddr | as_u64
+//@ obligation C03 C03.VirtAddr_as_u64.helper_identity
+//@ obligation C06 C06.VirtAddr_as_u64.helper_identity
+//@ obligation C07 C07.VirtAddr_as_u64.helper_identity
 //@ A
     ensures r == self.0,
 //@ end
@@ -181,6 +186,7 @@ pub proof fn lemma_align_up(a: u64, align: u64)
 //@ end
 
 //@ fn src/addr.rs | impl VirtAddr | is_null
+//@ obligation C03 C03.VirtAddr_is_null.helper
 //@ A
     ensures r == (self.0 == 0),
 //@ end
@@ -766,6 +772,7 @@ impl SubAssignSpecImpl<u64> for PhysAddr {
 //@ end
 
 //@ fn src/addr.rs | impl PhysAddr | new_unsafe
+//@ obligation C03 C03.PhysAddr_new_unsafe.helper_identity
 //@ A
     requires phys_ok(addr),
     ensures r.0 == addr,
@@ -778,11 +785,15 @@ impl SubAssignSpecImpl<u64> for PhysAddr {
 //@ end
 
 //@ fn src/addr.rs | impl PhysAddr | as_u64
+//@ obligation C03 C03.PhysAddr_as_u64.helper_identity
+//@ obligation C06 C06.PhysAddr_as_u64.helper_identity
+//@ obligation C07 C07.PhysAddr_as_u64.helper_identity
 //@ A
     ensures r == self.0,
 //@ end
 
 //@ fn src/addr.rs | impl PhysAddr | is_null
+//@ obligation C03 C03.PhysAddr_is_null.helper
 //@ A
     ensures r == (self.0 == 0),
 //@ end
@@ -900,4 +911,39 @@ impl SubAssignSpecImpl<u64> for PhysAddr {
     ensures r == self.0 - rhs.0,
 //@ B
     ensures self.0 >= rhs.0, r == self.0 - rhs.0,
+//@ end
+
+// ---------------------------------------------------------------------------
+// C05: forward, backward and steps-between are mutually inverse - over the REAL functions (callers checked against
+// the callee contracts above, as in the brief's varint example)
+
+//@ verbatim
+pub fn c05_virt_roundtrip(s: VirtAddr, n: u64)
+    requires wf_v(s)
+{
+    proof { lemma_canonical_halves(s.0); }
+    let f = VirtAddr::forward_checked_u64(s, n);
+    match f {
+        Some(f) => {
+            let d = VirtAddr::steps_between_u64(&s, &f);
+            assert(d == Some(n));
+            let b = VirtAddr::backward_checked_u64(f, n);
+            proof { if b is Some { lemma_pos_injective(b->Some_0.0, s.0); } }
+            assert(b == Some(s));
+        }
+        None => {}
+    }
+    let b = VirtAddr::backward_checked_u64(s, n);
+    match b {
+        Some(b) => {
+            proof { lemma_canonical_halves(s.0); lemma_canonical_halves(b.0); }
+            let f2 = VirtAddr::forward_checked_u64(b, n);
+            proof { if f2 is Some { lemma_pos_injective(f2->Some_0.0, s.0); } }
+            assert(f2 == Some(s));
+            let d = VirtAddr::steps_between_u64(&b, &s);
+            assert(d == Some(n));
+        }
+        None => {}
+    }
+}
 //@ end
